@@ -131,7 +131,7 @@ class G:
         if self.names and self.p("p_text_ref", 0.25):
             k = self.integer(1, 2)
             for _ in range(k):
-                r = "${%s}" % self.pick(self.names)
+                r = ("${last-saved#%s}" if self.p("p_last_saved", 0.0) else "${%s}") % self.pick(self.names)
                 pos = self.pick(["pre", "post", "mid"])
                 if pos == "pre":
                     s = r + self.pick(["", " "]) + s
